@@ -13,7 +13,7 @@ ID = 'C12'
 LEVEL = 'exploration'
 RULE = ('case = (body: random bytes | well-formed multipart from the harness encoder with 0-4 grammar mutations {drop / duplicate a delimiter, remove the '
         'closing delimiter, truncate at any offset, break a header line: non-UTF-8 bytes, no colon, no name parameter, empty value, empty block, stray '
-        'quote / semicolon, runs of 40-3000 backslashes / quotes / semicolons / blanks inside a parameter; bare CR / LF, non-UTF-8 text value, byte insert / replace / delete, junk preamble} | JSON: valid, invalid, non-object, nested '
+        'quote / semicolon, runs of 40-3000 backslashes / quotes / semicolons / blanks inside a parameter, one control byte at marked positions of a header line; bare CR / LF, non-UTF-8 text value, byte insert / replace / delete, junk preamble} | JSON: valid, invalid, non-object, nested '
         '10..100000 levels, non-UTF-8, BOM, empty | urlencoded text incl. stray % and non-ASCII bytes) x content type (matching / mismatching / missing '
         'boundary, multipart/mixed, JSON with parameters, upper case, none) x framing (Content-Length equal / short / long, chunked, truncated or corrupted '
         'chunked) x max_memfile_size in {8..102400} x accessor sequence over {forms, files, POST, params, json, body, query}. Oracle: nothing escapes, status '
@@ -30,8 +30,8 @@ WATCHDOG_S = 10
 
 def wellformed(draw, boundary):
     parts = []
-    for _ in range(draw(st.integers(0, 4))):
-        name = draw(st.sampled_from(['a', 'b', 'f', 'a;b', 'é']))
+    for _ in range(draw(st.one_of(st.integers(0, 4), st.integers(3, 8)))):
+        name = draw(st.sampled_from(['a', 'a', 'a', 'a', 'b', 'f', 'a;b', 'é']))
         val = draw(st.one_of(st.binary(max_size=12), st.sampled_from([b'', b'v', b'\r\n', b'--', b'\r\n--', b'x' * 30, 'é'.encode(), b'\xff\xfe'])))
         tok = b'\r\n--' + boundary.encode()
         if tok in b'\r\n' + val:
@@ -44,7 +44,7 @@ def wellformed(draw, boundary):
     return body, truth
 
 
-MUTS = ['hdr_run', 'hdr_run', 'drop_delim', 'dup_delim', 'no_close', 'truncate', 'hdr_nonutf8', 'hdr_nocolon', 'hdr_noname', 'hdr_emptyval', 'hdr_emptyblock', 'hdr_quote', 'bare_cr', 'bare_lf',
+MUTS = ['hdr_ctl', 'hdr_ctl', 'hdr_run', 'hdr_run', 'drop_delim', 'dup_delim', 'no_close', 'truncate', 'hdr_nonutf8', 'hdr_nocolon', 'hdr_noname', 'hdr_emptyval', 'hdr_emptyblock', 'hdr_quote', 'bare_cr', 'bare_lf',
         'insert', 'replace', 'delete', 'preamble', 'hdr_only_name', 'lf_only', 'swap_halves']
 
 
@@ -65,6 +65,15 @@ def mutate(body, truth, mut, a, b, boundary):
         return body[:s - (b % 3)]
     if mut == 'truncate':
         return body[:pos]
+    if mut == 'hdr_ctl' and hdrs:
+        # one control byte (every C0 control, DEL, and a few high bytes) somewhere inside a header line of a part
+        s, e = hdrs[a % len(hdrs)]
+        ctl = bytes([(list(range(33)) + [0x7f, 0x80, 0x85, 0xa0, 0xff])[b % 38]])
+        block = body[s:e]
+        marks = [m for m in (block.find(b':'), block.find(b':') + 2, block.find(b';'), block.find(b'="') + 2, block.find(b'Content-Type: ') + 14, block.find(b'/'),
+                             len(block), len(block) - 1, 0, 3) if 0 <= m <= len(block)] or [0]
+        k = marks[(a // 7) % len(marks)]
+        return body[:s] + block[:k] + ctl + block[k:] + body[e:]
     if mut == 'hdr_run' and hdrs:
         s, e = hdrs[a % len(hdrs)]
         ch = [b'\\', b'"', b';', b'=', b' ', b'\t', b'a', b'\\"', b'; ', b'="'][b % 10]
@@ -343,6 +352,23 @@ def run(ctx):
                 ctx.guarded(check_case, {'family': 'multipart', 'body': mutated, 'ctype': 'multipart/form-data; boundary=bnd', 'boundary': 'bnd', 'mutations': [['hdr_run', a, b]],
                                          'framing': 'length', 'fr_a': 0, 'fr_b': 1, 'chunks': [], 'B': 102400, 'access': ['POST'], 'pattern': [], 'method': 'POST'})
         ctx.count('header_run_grid')
+        # every control byte at every marked position of the file part's header block, read through files and POST
+        for a in range(0, 70, 7):
+            for b in range(38):
+                mutated = mutate(wf2, truth2, 'hdr_ctl', a + 1, b, 'bnd')
+                ctx.guarded(check_case, {'family': 'multipart', 'body': mutated, 'ctype': 'multipart/form-data; boundary=bnd', 'boundary': 'bnd', 'mutations': [['hdr_ctl', a + 1, b]],
+                                         'framing': 'length', 'fr_a': 0, 'fr_b': 1, 'chunks': [], 'B': 102400, 'access': ['files', 'POST'], 'pattern': [], 'method': 'POST'})
+        ctx.count('header_control_byte_grid')
+        # one field name used by k text parts and m file parts in every interleaving (k, m <= 3)
+        import itertools
+        for k in range(0, 4):
+            for m in range(0, 4):
+                for order in sorted(set(itertools.permutations('t' * k + 'f' * m)))[:12]:
+                    ps = [({'name': 'a', 'value': b'text%d' % i} if ch == 't' else {'name': 'a', 'filename': 'u%d.bin' % i, 'value': b'file%d' % i}) for i, ch in enumerate(order)]
+                    bd, _ = encode_multipart('bnd', ps, b'', b'\r\n')
+                    ctx.guarded(check_case, {'family': 'multipart', 'body': bd, 'ctype': 'multipart/form-data; boundary=bnd', 'boundary': 'bnd', 'mutations': [], 'framing': 'length',
+                                             'fr_a': 0, 'fr_b': 1, 'chunks': [], 'B': 102400, 'access': ['POST', 'forms', 'files'], 'pattern': [], 'method': 'POST'})
+        ctx.count('same_name_parts_grid')
         # every JSON pool document x accessor x framing with a buffer that holds it (deep nesting needs a large buffer to get past the size cap)
         for doc in JSON_POOL + [b'{"k":' * 1200 + b'1' + b'}' * 1200, b'[' * 1200 + b']' * 1200]:
             for acc in (['json'], ['forms'], ['POST'], ['params'], ['body', 'json']):
